@@ -12,7 +12,7 @@ GEN = []
 LEAN = ["Ymq.Props.C07"]
 AUDIT = "Ymq.Audit.C07"
 THEOREMS = ["Ymq.C07." + t for t in (
-    "mgRedc_spec mgMul_spec new_spec mulmod_spec mintMulmod_spec mulmod_overflow_carry_zero "
+    "mgRedc_spec mgMul_spec mg2adicInv_spec new_spec mulmod_spec mintMulmod_spec mulmod_overflow_carry_zero "
     "add_spec sub_spec add_spec_partial sub_spec_partial add_512bit_counterexample "
     "redc_spec redc_spec_partial from_int_spec to_int_spec from_to_int redc_large_spec inv_spec gcd_spec "
     "M128_mul_spec M128_add_sub_spec M128_eq_ZmodN M128_inv2adic_spec M128_r_r2_spec").split()]
